@@ -20,9 +20,10 @@ JudgeSer(e) ==
               ELSE e.res.ok = 0 /\ ~IsPanic(e.res) /\ IsPrefix(e.written, plain) /\ Len(e.written) <= e.fail_at
   IN [ok |-> good, exp |-> [bad |-> IF good THEN <<>> ELSE <<"io_ser">>, want |-> [plain |-> plain, must_succeed |-> fits]]]
 
-\* walk the messages; state (rd, sc); returns the index of the first disagreeing message (0 if none) and what was expected there
-RECURSIVE Walk(_, _, _, _)
-Walk(e, i, rd, sc) ==
+\* walk the messages; state: rd = stream position, [lo, lo + len) = the scratch region still unused (what the previous call
+\* returned); returns the index of the first disagreeing message (0 if none) and what was expected there
+RECURSIVE Walk(_, _, _, _, _)
+Walk(e, i, rd, lo, len) ==
   IF i > Len(e.msgs) THEN [bad |-> 0, want |-> 0]
   ELSE
     LET m == e.msgs[i]
@@ -32,20 +33,22 @@ Walk(e, i, rd, sc) ==
         vis == Dec(e.shape, eff, rd)
         needAll == IF vis.ok THEN ScratchNeed(vis.tk) ELSE 0          \* every block read passes through the scratch
         needBor == IF vis.ok THEN BorrowNeed(vis.tk) ELSE 0           \* only what the result borrows
-        avail == e.scratch_len - sc
-        mustOk == vis.ok /\ needAll <= avail
-        mayOk == vis.ok /\ needBor <= avail
+        mustOk == vis.ok /\ needAll <= len
+        mayOk == vis.ok /\ needBor <= len
         want == IF mustOk THEN [ok |-> 1, value |-> vis.v, rd_after |-> vis.pos, scratch_used |-> <<needBor, needAll>>]
                 ELSE IF mayOk THEN [ok |-> "either", value |-> vis.v, rd_after |-> vis.pos, scratch_used |-> <<needBor, needAll>>]
                 ELSE [ok |-> 0, err |-> IF vis.ok \/ full.ok THEN "End" ELSE vis.err]
-        pre == m.rd_before = rd /\ m.sc_off = sc /\ m.sc_len = avail
+        pre == m.rd_before = rd /\ m.sc_off = lo /\ m.sc_len = len
+        B == IF vis.ok THEN BorrowBlocks(vis.tk) ELSE <<>>
         good == /\ pre /\ ~IsPanic(m.res)
                 /\ IF m.res.ok = 1
                    THEN /\ mayOk /\ m.res.value = vis.v /\ m.rd_after = vis.pos                         \* not one byte more than the message
-                        \* the unused scratch is returned: it follows everything placed, reaches the end of the buffer, and
-                        \* no more was used than one copy of every block read
-                        /\ m.rem_off >= sc /\ m.rem_off - sc <= needAll /\ m.rem_off + m.rem_len = e.scratch_len
-                        /\ ReaderLeavesOK(m.leaves, vis.tk, sc, m.rem_off)
+                        \* the unused scratch is returned: one contiguous part of what was available (which end is not
+                        \* prescribed), everything placed lies outside it, and no more is missing than one copy of every block read
+                        /\ m.rem_len >= 0 /\ (m.rem_len = 0 \/ (m.rem_off >= lo /\ m.rem_off + m.rem_len <= lo + len))     \* (an empty remainder has no position)
+                        /\ len - m.rem_len <= needAll
+                        /\ ReaderLeavesOK(m.leaves, vis.tk, lo, lo + len)
+                        /\ \A j \in 1..Len(B) : (B[j].n = 0 \/ m.rem_len = 0 \/ m.leaves[j][1] + m.leaves[j][2] <= m.rem_off \/ m.leaves[j][1] >= m.rem_off + m.rem_len)
                    ELSE /\ ~mustOk
                         \* a failing reader or a short scratch must produce an error (the statement names no kind); a damaged
                         \* stream with everything available must fail exactly as slice decoding does
@@ -53,9 +56,9 @@ Walk(e, i, rd, sc) ==
                         /\ (full.ok => m.rd_after <= full.pos)                                           \* no over-read on the failing path either
                         /\ m.rd_after <= Len(eff)
     IN IF ~good THEN [bad |-> i, want |-> want]
-       ELSE IF m.res.ok = 1 THEN Walk(e, i + 1, vis.pos, m.rem_off) ELSE [bad |-> (IF i < Len(e.msgs) THEN i + 1 ELSE 0), want |-> "no call after a failure"]
+       ELSE IF m.res.ok = 1 THEN Walk(e, i + 1, vis.pos, m.rem_off, m.rem_len) ELSE [bad |-> (IF i < Len(e.msgs) THEN i + 1 ELSE 0), want |-> "no call after a failure"]
 JudgeDe(e) ==
-  LET w == Walk(e, 1, 0, 0)
+  LET w == Walk(e, 1, 0, 0, e.scratch_len)
       nonempty == Len(e.msgs) >= 1
   IN [ok |-> w.bad = 0 /\ nonempty, exp |-> [bad |-> IF w.bad = 0 /\ nonempty THEN <<>> ELSE <<"io_de">>, want |-> [msg |-> w.bad, expected |-> w.want]]]
 
